@@ -12,7 +12,7 @@ MODEL_MODULES = ['TenpyModel.Util.J', 'TenpyModel.C13.PyList', 'TenpyModel.Gen.C
 PROPS_MODULES = ['TenpyModel.C13.Props', 'TenpyModel.C13.PropsRitz', 'TenpyModel.C13.Props2']
 LEAN_MODULES = PROPS_MODULES
 LEVEL = 'proof'
-BUDGET = {'quick': 240, 'thorough': 2000}
+BUDGET = {'quick': 150, 'thorough': 2000}
 RULE = ('models include genuinely complex Hermitian Hamiltonians (SpinChain with Dzyaloshinskii-Moriya coupling muJ and/or a field '
         'hy, FermionChain with complex hopping e^{i phi}); effh: OneSiteH/TwoSiteH.to_matrix vs matvec on basis vectors for combine '
         'True/False and both move directions on random complex MPS (also checked at every step of every finite run). '
@@ -59,7 +59,43 @@ def gen_cases(rng, n, quick):
     return cases
 
 
+def gen_front_block(rng, quick):
+    """one case of every scenario kind; it runs first, so a wall-clock deadline never drops a kind"""
+    front = [L.gen_effh_case(rng)]
+    front += [API.gen_case(rng, quick, scenario=sc) for sc in sorted(set(API.SCENARIOS))]
+    for part in ('dmrg', 'dmrg', 'converge', 'converge', 'long'):
+        front.append(L.gen_case(rng, quick=quick, part=part))
+    front += [L.gen_infinite_case(rng, 'idmrg'), L.gen_infinite_case(rng, 'idmrg'), L.gen_infinite_case(rng, 'vumps')]
+    return front
+
+
+class CaseTimeout(BaseException):     # (not an Exception: the oracles' own `except Exception` must not swallow it)
+    pass
+
+
+CASE_LIMIT_S = {'quick': 45, 'thorough': 400}
+_LIMIT = [45]
+
+
+def _init_worker(limit):
+    """per-process limits: address space (a run whose bond dimension explodes must not take the machine down) and the
+    per-case wall-clock limit used by `_eval`"""
+    import resource
+    _LIMIT[0] = limit
+    try:
+        resource.setrlimit(resource.RLIMIT_AS, (6 * 2 ** 30, 6 * 2 ** 30))
+    except (ValueError, OSError):
+        pass
+
+
+def _alarm(signum, frame):
+    raise CaseTimeout()
+
+
 def _eval(case):
+    import signal
+    signal.signal(signal.SIGALRM, _alarm)
+    signal.setitimer(signal.ITIMER_REAL, _LIMIT[0])
     try:
         if case['part'] in ('idmrg', 'vumps'):
             return L.run_infinite_case(case)
@@ -68,9 +104,54 @@ def _eval(case):
         if case['part'] == 'api':
             return API.run_api_case(case)
         return L.run_case(case)
+    except CaseTimeout:
+        return {'resource': f'case exceeded {_LIMIT[0]} s'}
+    except MemoryError:
+        return {'resource': 'case exceeded the address-space limit'}
     except Exception:  # noqa
         import traceback
         return {'harness_error': traceback.format_exc()[-1500:]}
+    finally:
+        signal.setitimer(signal.ITIMER_REAL, 0)
+
+
+def _eval_pool(cases, procs, deadline, limit):
+    """evaluate the cases in order on a pool; stop at the wall-clock `deadline` (absolute time, None = no deadline):
+    cases that are not finished by then are dropped (None)"""
+    import time
+    outs = [None] * len(cases)
+    if procs <= 1:
+        _LIMIT[0] = limit        # (no address-space limit in the main process: the Lean driver is started from it)
+        for i, c in enumerate(cases):
+            if deadline is not None and time.time() > deadline:
+                break
+            outs[i] = _eval(c)
+        return outs
+    pool = mp.Pool(procs, initializer=_init_worker, initargs=(limit,))
+    try:
+        handles = [pool.apply_async(_eval, (c,)) for c in cases]
+        for i, h in enumerate(handles):
+            while True:
+                left = None if deadline is None else deadline - time.time()
+                if left is not None and left <= 0:
+                    break
+                try:
+                    outs[i] = h.get(timeout=1.0 if left is None else max(0.05, min(1.0, left)))
+                    break
+                except mp.TimeoutError:
+                    continue
+            if deadline is not None and time.time() > deadline:
+                break
+        for i, h in enumerate(handles):     # whatever else is finished by now
+            if outs[i] is None and h.ready():
+                try:
+                    outs[i] = h.get(timeout=0)
+                except Exception:  # noqa
+                    pass
+    finally:
+        pool.terminate()
+        pool.join()
+    return outs
 
 
 def model_line(case, out):
@@ -175,14 +256,15 @@ def check_infinite(case, out, fail):
             fail('idmrg.bond-energy-below-exact-energy-density', f'{out["E_bond"]!r} < {e0!r}')
 
 
-def run_cases(ctx, cases, use_model=True, procs=8):
+def run_cases(ctx, cases, use_model=True, procs=8, deadline=None):
     res = core.Result()
     res.extra['anchor_coverage_note'] = ANCHOR_COVERAGE_NOTE
-    if procs > 1:
-        with mp.Pool(procs) as pool:
-            outs = pool.map(_eval, cases, chunksize=1)
-    else:
-        outs = [_eval(c) for c in cases]
+    outs = _eval_pool(cases, procs, deadline, CASE_LIMIT_S['quick' if ctx.quick else 'thorough'])
+    dropped = sum(o is None for o in outs)
+    res.extra['cases_generated'] = len(cases)
+    res.extra['cases_dropped_at_deadline'] = dropped
+    kept = [(c, o) for c, o in zip(cases, outs) if o is not None]
+    cases, outs = [c for c, _ in kept], [o for _, o in kept]
     lines, owners = [], []
     for ci, (case, out) in enumerate(zip(cases, outs)):
         if 'trace' in out and 'raise' not in out and out['trace']['sweeps']:
@@ -214,6 +296,9 @@ def run_cases(ctx, cases, use_model=True, procs=8):
             fails.append((sig, detail))
         if 'harness_error' in out:
             res.fail('correspondence', 'harness-exception', out['harness_error'], case)
+            continue
+        if 'resource' in out:      # not a verdict on the case
+            res.count('case-stopped.' + out['resource'].replace(' ', '-'))
             continue
         if 'raise' in out:
             sig = f'{case["part"]}.run-raises'
@@ -288,16 +373,21 @@ def load_corpus():
 
 
 def run(ctx):
+    import time
     rng = ctx.sub_rng('cases')
-    n = 150 if ctx.quick else 2400
-    cases = load_corpus() + gen_cases(rng, n, ctx.quick)
-    return run_cases(ctx, cases, use_model=True, procs=12 if ctx.quick else 16)
+    n = 170 if ctx.quick else 2400
+    front = gen_front_block(ctx.sub_rng('front'), ctx.quick)
+    cases = front + load_corpus() + gen_cases(rng, n - len(front), ctx.quick)
+    # wall-clock deadline: the build/audit before and the model driver + evidence after need the rest of the budget
+    deadline = ctx.t0 + ctx.budget_s * (0.72 if ctx.quick else 0.85)
+    return run_cases(ctx, cases, use_model=True, procs=12 if ctx.quick else 16, deadline=max(deadline, time.time() + 20))
 
 
 def search(ctx, reasons):
+    import time
     rng = ctx.sub_rng('search')
-    cases = load_corpus() + gen_cases(rng, 80 if ctx.quick else 3000, ctx.quick)
-    return run_cases(ctx, cases, use_model=False, procs=16)
+    cases = gen_front_block(ctx.sub_rng('search-front'), ctx.quick) + load_corpus() + gen_cases(rng, 80 if ctx.quick else 3000, ctx.quick)
+    return run_cases(ctx, cases, use_model=False, procs=16, deadline=time.time() + (60 if ctx.quick else 900))
 
 
 def replay(ctx, payload):
